@@ -10,7 +10,7 @@
    premises "IL <> 0" and "k_i <> 0 (K_i <> infinity)"; C04_child_zero_gap / C04_child_ilzero_gap exhibit
    both differences with an artificial HMAC.  A real input needs an HMAC-SHA512 output with a prescribed
    256-bit half. *)
-From BU Require Import Lib.Bytes Gen.Nets HD.HD HD.HDRun HD.HDGuards HD.Bip32Spec HD.HDProofs HD.HDExamples.
+From BU Require Import Lib.Bytes Gen.Nets HD.HD HD.HDRun HD.HDGuards HD.Bip32Spec HD.HDProofs HD.HDExamples HD.HDConsistent.
 
 Section C04.
 Variable point : Type.
@@ -195,3 +195,8 @@ Example C04_vector1_premises :
   | None => False
   end.
 Proof. exact tv1_premises. Qed.
+
+(* the Section hypotheses about the dependencies are jointly satisfiable (the group Z_n, constant HMAC/HASH160,
+   the real SHA-256d): the theorems above are not vacuous *)
+Example C04_hypotheses_consistent : hypotheses_statement.
+Proof. exact hypotheses_consistent. Qed.
